@@ -1299,6 +1299,18 @@ def fam_dbg(tier, seed):
     out.append(struct(mod, "Dbg24", 24, [field("a", [(0, 11)], T_uint(12)), field("r#fn", [(23, 23)], T_bool())], debug=True, family="DBG"))
     # zero fields
     out.append(struct(mod, "Dbg0", 8, [], debug=True, family="DBG"))
+    # every base width class, full-width and top-bit fields, wide signed fields
+    for w in (8, 16, 32, 64, 128, 12, 48, 100):
+        fs = [field("whole", [(0, w - 1)], T_uint(w)), field("top", [(w - 1, w - 1)], T_bool(), access="r"),
+              field("low", [(0, 0)], T_uint(1))]
+        if w in (8, 16, 32, 64, 128):
+            fs.append(field("signed", [(0, w - 1)], T_int(w)))
+        elif w > 8:
+            fs.append(field("sb", [(w - 8, w - 1)], T_int(8)))
+        if w >= 12:
+            fs.append(field("split", [(w - 4, w - 1), (0, 3)], T_uint(8)))
+        out.append(struct(mod, "DbgW%d" % w, w, fs, debug=True, family="DBG",
+                          default=({"form": "=", "value": (1 << (w - 1)) | 1} if w % 3 else None)))
     return out
 
 
